@@ -8,6 +8,8 @@ MCFiles == StrUpTo(FileAlpha, FileLen) \ {<<>>}
 MCMsgs  == StrUpTo(MsgAlpha, MsgLen)
 MCPkgs  == StrUpTo(PkgAlpha, PkgLen)
 MCTexts == {<<116>>, <<60, 93, 93, 62>>}
+AllOpts == [color : BOOLEAN, verb : 0..2]
+PlainOpts == {NoOpt}
 ASSUME EncodeCorrect(EncAlphabet, EncLen)
 \* the file-name rule of the writer satisfies what the property asks of file names
 ASSUME \A p \in StrUpTo({112, 47, 34}, 2), g \in StrUpTo({103, 58, 60, 39, 10}, 2) : FileNameOK(FileName(p, g), p, g)
